@@ -176,6 +176,10 @@ func c11Tail(h []byte) string {
 
 var fromPlain func([]byte) string
 
+// undeclaredMarkup is set while HTML / XML documents WITHOUT any encoding
+// declaration are judged: they are "text without a declared encoding" too.
+var undeclaredMarkup bool
+
 func c11JudgeDetect(c *fw.Ctx, kind string, x []byte, limit uint32) {
 	h := lib.Header(x, limit)
 	if len(h) == 0 {
@@ -202,9 +206,12 @@ func c11JudgeDetect(c *fw.Ctx, kind string, x []byte, limit uint32) {
 	}
 	anomalyC02(c, m, nil)
 	mt, params, err := mime.ParseMediaType(m.String())
-	if err != nil || mt != "text/plain" {
+	if err != nil || (mt != "text/plain" && !(undeclaredMarkup && (mt == "text/html" || mt == "text/xml"))) {
 		c.Count("detect_result_not_text_plain_skipped", 1)
 		return
+	}
+	if mt != "text/plain" {
+		c.Count("undeclared_markup_results_judged", 1)
 	}
 	cs := params["charset"]
 	c.Count("charset_"+cs, 1)
@@ -303,21 +310,32 @@ func c11Run(c *fw.Ctx, b fw.Batch) {
 			}
 		}
 		// long texts whose first offending byte comes late (beyond 1 KiB, around the default limit)
-		bases := [][]byte{bytes.Repeat([]byte("plain ascii words "), 400), bytes.Repeat([]byte("d\xc3\xa9j\xc3\xa0 vu \xe2\x82\xac "), 300)}
+		bases := [][]byte{bytes.Repeat([]byte("plain ascii words "), 4500), bytes.Repeat([]byte("d\xc3\xa9j\xc3\xa0 vu \xe2\x82\xac "), 4500)}
 		lates := [][]byte{{0xE9}, {0x85}, {0xFF}, {0xC3}, {0xC3, 0x28}, {0xE2, 0x82}, {0xA9, 0xA9}, {0x93, 'q', 0x94}, {0xE9, ' ', 0x85}}
 		for _, base := range bases {
-			for _, off := range []int{100, 1000, 1023, 1024, 1025, 1030, 2000, 3000, 3069, 3070, 3071, 3072, 4000, 6000} {
+			for _, off := range []int{100, 1000, 1023, 1024, 1025, 1030, 2000, 3000, 3069, 3070, 3071, 3072, 4000, 6000, 16384, 65520, 65536, 65538, 70000} {
 				for _, lt := range lates {
 					if off > len(base) {
 						continue
 					}
 					x := append(append(append([]byte{}, base[:off]...), lt...), " tail text"...)
-					for _, L := range []uint32{0, 3072, uint32(len(x)), uint32(off + len(lt)), uint32(off + 1), uint32(off), 8192} {
+					for _, L := range []uint32{0, 3072, uint32(len(x)), uint32(off + len(lt)), uint32(off + 1), uint32(off), 8192, 1 << 20} {
 						c11JudgeDetect(c, "late-byte", x, L)
 					}
 				}
 			}
 		}
+		// HTML / XML without any declared encoding: the same rules apply to the sniffed charset
+		undeclaredMarkup = true
+		for _, head := range []string{"<html><body>", "<!DOCTYPE html><p>", "<?xml version=\"1.0\"?><doc>", "<?xml version=\"1.0\" standalone=\"yes\"?>\n<a>", "<?xml version='1.0'?><r>"} {
+			for ti, t := range c11Texts {
+				x := append([]byte(head), t...)
+				for L := len(head) + 1; L <= len(x)+1; L++ {
+					c11JudgeDetect(c, fmt.Sprintf("undeclared-markup-%d", ti), x, uint32(L))
+				}
+			}
+		}
+		undeclaredMarkup = false
 		// BOMs followed by anything
 		boms := [][]byte{{0xEF, 0xBB, 0xBF}, {0xFE, 0xFF}, {0xFF, 0xFE}, {0x00, 0x00, 0xFE, 0xFF}, {0xFF, 0xFE, 0x00, 0x00}}
 		for _, bom := range boms {
@@ -353,7 +371,7 @@ func init() {
 	fw.Register(&fw.Prop{
 		ID:    "C11",
 		Level: "exploration",
-		Rule: "bounded-exhaustive over a 27-symbol byte-class alphabet (ASCII letter, space, LF, ESC, DEL, C1 bytes 80 85 8F 90 9F, continuation bytes A0 A9 BD BF 82, every UTF-8 lead class C0 C2 C3 DF E0 E2 ED EF F0 F4 F5, FF): ALL strings of length <= 4 through Detect (whole, and cut by the limit with a tail behind it) and ALL strings of length <= 5 (quick) / 6 (thorough) through charset.FromPlain; plus real UTF-8 / Latin-1 / Windows-1252 paragraphs (incl. U+FFFD, 4-byte runes) cut at every limit and started at every offset, long ASCII / UTF-8 texts whose first Latin-1 / C1 / invalid / cut byte comes late (offsets 100 … 6000, around 1024 and 3072), BOMs followed by arbitrary bytes, random longer strings. " +
+		Rule: "bounded-exhaustive over a 27-symbol byte-class alphabet (ASCII letter, space, LF, ESC, DEL, C1 bytes 80 85 8F 90 9F, continuation bytes A0 A9 BD BF 82, every UTF-8 lead class C0 C2 C3 DF E0 E2 ED EF F0 F4 F5, FF): ALL strings of length <= 4 through Detect (whole, and cut by the limit with a tail behind it) and ALL strings of length <= 5 (quick) / 6 (thorough) through charset.FromPlain; plus real UTF-8 / Latin-1 / Windows-1252 paragraphs (incl. U+FFFD, 4-byte runes) cut at every limit and started at every offset, long ASCII / UTF-8 texts whose first Latin-1 / C1 / invalid / cut byte comes late (offsets 100 … 70000, around 1024, 3072 and 65536, limits up to 1 MiB and 0), HTML / XML documents without any encoding declaration (the same rules apply to their sniffed charset), BOMs followed by arbitrary bytes, random longer strings. " +
 			"every case is non-trivial (the oracle always has a claim to check); distinct = distinct (entry, TV, A, N / BOM class, reported charset) tuples — coarse by design; the enumerated strings themselves are all different.",
 		Assumptions: []string{
 			"utf8Scan is an explicit table-driven prefix validator; unicode/utf8.Valid is used only as a self-check of it",
